@@ -71,6 +71,17 @@ func (r *Run) Violate(key, what string, replay any) {
 	r.order = append(r.order, key)
 }
 
+// Violations returns the violations recorded so far, in the order they were found.
+func (r *Run) Violations() []Violation {
+	r.mu.Lock()
+	defer r.mu.Unlock()
+	var l []Violation
+	for _, k := range r.order {
+		l = append(l, r.violations[k])
+	}
+	return l
+}
+
 // NViolations returns the number of distinct violations so far.
 func (r *Run) NViolations() int {
 	r.mu.Lock()
